@@ -156,6 +156,9 @@ def _build_segments(case):
     order = {"1": 0, "X": 1, "Y": 2}
     recs.sort(key=lambda t: (order[t[0]["chromosome"].replace("chr", "")], t[0]["start"], t[0]["end"]))
     df = pd.DataFrame([r for r, _ in recs])
+    from vk import gen
+
+    gen.relabel(df, gen.spec_for(case))
     return CopyNumArray(df, {"sample_id": "SAMPLE"}), recs
 
 
